@@ -86,6 +86,24 @@ ParityClauses ==
                   <<i, j, Rec.chains[i].sign_num, Rec.chains[j].sign_num,
                     ProdEta(Rec.trs[i], FlippedNodes(Rec.trs[i], Rec.trs[j]))>>)
 
+\* the converse (beyond C03's statement; what a fit relies on): a coefficient is shared ONLY by chains that are related - in the helicity
+\* basis node-wise equal or daughter-reversed daughters (reversed only at nodes whose interaction fixes a parity factor), in the
+\* canonical basis the same LS combination at every node - possibly after exchanging identical final-state particles.  Two unrelated
+\* chains under one coefficient would silently remove a degree of freedom from the model.
+SharingClauses ==
+  \A i \in DOMAIN Rec.trs : \A j \in DOMAIN Rec.trs :
+     (i < j /\ Rec.chains[i].found = 1 /\ Rec.chains[j].found = 1
+        /\ Len(Rec.chains[i].coef) > 0 /\ Rec.chains[i].coef = Rec.chains[j].coef)
+     => /\ Stat("shared-coefficient-pairs", 1)
+        /\ Clause("coefficient-shared-only-by-related-chains",
+                  \E v \in PermVariants(Rec.trs[j]) :
+                     /\ SameTreeAndParticles(Rec.trs[i], v)
+                     /\ \A S \in Inner(TreeOf(Rec.trs[i])) :
+                           IF Canonical THEN LSEqual(Rec.trs[i], v, S)
+                           ELSE /\ NodeRelated(Rec.trs[i], v, S)
+                                /\ (NodeFlipped(Rec.trs[i], v, S) => Eta(Rec.trs[i], S) # 0),
+                  <<i, j, Rec.chains[i].coef>>)
+
 \* ---- C01: closure -----------------------------------------------------------------------------
 Cl == Rec.closure
 KeySet(seq) == { <<SetOfSets(seq[i][1]), seq[i][2]>> : i \in DOMAIN seq }
@@ -111,6 +129,7 @@ ClosureClauses ==
 Step == /\ l <= Len(Log)
         /\ (Rec.do_formula = 1 => ChainClauses /\ AmpClauses)
         /\ (Rec.do_parity = 1 => ParityClauses)
+        /\ ((Rec.do_parity = 1 /\ Rec.default_naming = 1) => SharingClauses)
         /\ (Rec.do_closure = 1 => ClosureClauses)
         /\ l' = l + 1
 TraceInit == l = 1
